@@ -11,6 +11,7 @@ import (
 	"rscheck/core"
 	"rscheck/flow"
 	"rscheck/lin"
+	"rscheck/pat"
 )
 
 // r5hash: the chunk protocol inside the hash case of readObjectValue. The
@@ -66,18 +67,75 @@ func r5hash(c *core.Ctx, rov *core.Fn, cc *ast.CaseClause) {
 		c.Undecidedf("R5.chunk", "hash/loop", cc.Pos(), "no counting loop in the hash case")
 		return
 	}
-	// i and n from `i < n` (either orientation, conversions ignored)
-	var iE, nE ast.Expr
-	if be, ok := ast.Unparen(loop.Cond).(*ast.BinaryExpr); ok {
-		switch be.Op {
-		case token.LSS:
-			iE, nE = be.X, be.Y
-		case token.GTR:
-			iE, nE = be.Y, be.X
+	// the loop counts the pairs of this record, upwards from 0 to n or downwards
+	// from n: in both forms r, the number of pairs read once the current
+	// iteration's pair is in, is linear in the loop variable
+	//   for i := 0; i < n; i++      r = i + 1
+	//   for left := n; left > 0; left--   r = n - left + 1
+	var nE ast.Expr              // the number of pairs of this record
+	var notLast, remain lin.Form // r - n (is 0 on the last pair), n - r (pairs left after this one)
+	{
+		cmp, okC := lin.CmpOf(info, loop.Cond, true)
+		step := int64(0)
+		var v ast.Expr
+		switch p := loop.Post.(type) {
+		case *ast.IncDecStmt:
+			v = p.X
+			step = 1
+			if p.Tok == token.DEC {
+				step = -1
+			}
+		case *ast.AssignStmt:
+			if len(p.Lhs) == 1 && len(p.Rhs) == 1 {
+				if k, isC := core.IntConst(info, p.Rhs[0]); isC && (k == 1 || k == -1) {
+					v = p.Lhs[0]
+					switch p.Tok {
+					case token.ADD_ASSIGN:
+						step = k
+					case token.SUB_ASSIGN:
+						step = -k
+					}
+				}
+			}
+		}
+		var start ast.Expr
+		if as, isAs := loop.Init.(*ast.AssignStmt); isAs && len(as.Lhs) == 1 && len(as.Rhs) == 1 && v != nil && pat.Same(info, as.Lhs[0], v) {
+			start = as.Rhs[0]
+		}
+		switch {
+		case !okC || v == nil || step == 0 || start == nil:
+		case step == 1:
+			// i from 0 while i < n
+			if k, isC := core.IntConst(info, start); isC && k == 0 {
+				if be, isBe := ast.Unparen(loop.Cond).(*ast.BinaryExpr); isBe {
+					var bound ast.Expr
+					switch {
+					case be.Op == token.LSS && pat.Same(info, stripConv(info, be.X), v):
+						bound = be.Y
+					case be.Op == token.GTR && pat.Same(info, stripConv(info, be.Y), v):
+						bound = be.X
+					case be.Op == token.NEQ && pat.Same(info, stripConv(info, be.X), v):
+						bound = be.Y
+					}
+					if bound != nil {
+						nE = bound
+						notLast = lin.Combo(info, 1, 1, v, -1, nE)
+						remain = lin.Combo(info, -1, 1, nE, -1, v)
+					}
+				}
+			}
+		case step == -1:
+			// left from n while left > 0
+			pos := lin.Combo(info, 0, -1, v) // -left < 0
+			if cmp.Is(pos, token.LSS) || cmp.Is(lin.Combo(info, 0, 1, v), token.NEQ) {
+				nE = start
+				notLast = lin.Combo(info, 1, -1, v)
+				remain = lin.Combo(info, -1, 1, v)
+			}
 		}
 	}
-	if iE == nil {
-		c.Undecidedf("R5.chunk", "hash/loop-bound", loop.Pos(), "hash loop is not bounded by `i < n`")
+	if nE == nil {
+		c.Undecidedf("R5.chunk", "hash/loop-bound", loop.Pos(), "the hash loop is not recognised as counting the pairs up from 0 to n or down from n")
 		return
 	}
 	fieldNamed := func(name string) func(*types.Var) bool {
@@ -112,6 +170,7 @@ func r5hash(c *core.Ctx, rov *core.Fn, cc *ast.CaseClause) {
 
 	// --- one increment of lastReadCount per pair
 	var incPos token.Pos
+	var incLHS ast.Expr
 	incs, incBad := 0, ""
 	for _, st := range e.Stores(g, loop.Body, fieldNamed("lastReadCount")) {
 		incs++
@@ -135,6 +194,7 @@ func r5hash(c *core.Ctx, rov *core.Fn, cc *ast.CaseClause) {
 			incBad = c.Src(st.Stmt)
 		}
 		incPos = rootPos(st.Site, st.Stmt)
+		incLHS = st.LHS
 	}
 	switch {
 	case incs == 1 && incBad == "":
@@ -173,7 +233,6 @@ func r5hash(c *core.Ctx, rov *core.Fn, cc *ast.CaseClause) {
 			c.Failf("R5.chunk", "hash/break", loop.Pos(), "the hash loop never breaks: a hash larger than the chunk limit is delivered as one record (the statement promises 16 MiB chunks)")
 		}
 	} else {
-		notLast := lin.Combo(info, 1, 1, iE, -1, nE) // i - n + 1
 		okLast, okSize, sizeSeen := false, false, ""
 		for _, f := range cfgq.Facts(brk.Cond, true) {
 			cmp, ok := lin.CmpOf(info, f.Expr, f.Val)
@@ -205,20 +264,26 @@ func r5hash(c *core.Ctx, rov *core.Fn, cc *ast.CaseClause) {
 		} else {
 			c.Check("R5.chunk", "hash/break-limit", brk.Pos(), okSize, "the chunk limit is `captured bytes > 16 MiB`; the code tests `"+sizeSeen+"`")
 		}
-		want := lin.Combo(info, -1, 1, nE, -1, iE) // n - i - 1
+		want := remain
 		n, okRem, got := 0, true, ""
 		for _, st := range e.Stores(g, brk.Body, fieldNamed("remainMember")) {
 			n++
-			if !st.Plain() || !lin.Of(st.G.Info, e.Resolve(st.Site, st.RHS)).Equal(want) && !lin.Of(st.G.Info, st.RHS).Equal(want) {
+			// n - lastReadCount says the same once this pair has been counted
+			byCount := false
+			if incLHS != nil && incs == 1 && incPos < rootPos(st.Site, st.Stmt) && len(st.Up) == 0 {
+				alt := lin.Combo(info, 0, 1, nE, -1, incLHS)
+				byCount = lin.Of(st.G.Info, st.RHS).Equal(alt) || lin.Of(st.G.Info, e.Resolve(st.Site, st.RHS)).Equal(alt)
+			}
+			if !st.Plain() || !byCount && !lin.Of(st.G.Info, e.Resolve(st.Site, st.RHS)).Equal(want) && !lin.Of(st.G.Info, st.RHS).Equal(want) {
 				okRem = false
 				got = c.Src(st.Stmt)
 			}
 		}
 		switch {
 		case n == 0:
-			c.Failf("R5.chunk", "hash/remain-formula", brk.Pos(), "on break remainMember = n - i - 1 pairs are left for the following records; the break does not record what remains")
+			c.Failf("R5.chunk", "hash/remain-formula", brk.Pos(), "on break remainMember = the pairs not yet read (n - i - 1) are left for the following records; the break does not record what remains")
 		default:
-			c.Check("R5.chunk", "hash/remain-formula", brk.Pos(), okRem, "on break remainMember = n - i - 1 pairs are left for the following records (off by one loses or duplicates a pair); found `"+got+"`")
+			c.Check("R5.chunk", "hash/remain-formula", brk.Pos(), okRem, "on break remainMember = the pairs not yet read (n - i - 1) are left for the following records (off by one loses or duplicates a pair); found `"+got+"`")
 		}
 	}
 
@@ -276,4 +341,19 @@ func r5hash(c *core.Ctx, rov *core.Fn, cc *ast.CaseClause) {
 	}
 	c.Check("R5.chunk", "hash/count-reset", cc.Pos(), countReset, "lastReadCount restarts at 0 for every record (before the pair loop)")
 	_ = fmt.Sprint
+}
+
+// stripConv removes integer conversions and parentheses.
+func stripConv(info *types.Info, e ast.Expr) ast.Expr {
+	for {
+		e = ast.Unparen(e)
+		call, ok := e.(*ast.CallExpr)
+		if !ok || len(call.Args) != 1 {
+			return e
+		}
+		if tv, has := info.Types[call.Fun]; !has || !tv.IsType() {
+			return e
+		}
+		e = call.Args[0]
+	}
 }
